@@ -54,6 +54,14 @@ def run(res, tier, seed, shard, nshards):
             # bias towards clients calls; closing symbols rarer so that histories stay alive
             hist = tuple(rng.choice(ALPHA if rng.random() < 0.25 else ["send", "recv", "ping", "s_text", "s_ping", "recv", "send_close", "close_bad"]) for _ in range(k))
             history_case(res, W, rng, hist, rng.choice(["silent", "answers", "chatty"]), exhaustive=False)
+        # R6: close(timeout=t) returns within t whatever the socket timeout and however the peer behaves
+        ti = 0
+        for sock_to in (None, 0.3, 1, 5):
+            for close_to in (0.5, 2, 3):
+                for peer in ("silent", "answers", "answers-late", "stream-0.05", "stream-0.4", "stream-pings", "eof"):
+                    ti += 1
+                    if ti % nshards == shard:
+                        close_timing_case(res, W, sock_to, close_to, peer)
         # statuses and reasons for R5
         if shard == 0:
             for status in (-1, 0, 999, 1000, 1001, 3000, 4999, 65535, 65536, 1 << 20):
@@ -286,3 +294,55 @@ def encoding_case(res, W, rng, api, status, rl):
         want = struct.pack("!H", status) + reason
         if exc is not None or len(frames) != 1 or frames[0].opcode != R.CLOSE or frames[0].payload != want:
             res.violation("close-encoding", f"{api}({status}, {rl} bytes): frames {[(f.opcode, f.payload[:8]) for f in frames]} exc={exc!r}", case, step_call=api)
+
+
+def close_timing_case(res, W, sock_to, close_to, peer):
+    """R6.  The peer never answers the close (or answers late / streams other
+    frames for ever / ends the stream); close(timeout=close_to) must return by
+    close_to (+ one gap of the stream, since the deadline is checked between
+    frames) and leave the transport released."""
+    so, conn = net.pair()
+    hs = H.HandshakePeer(conn)
+    w = W.WebSocket()
+    so.settimeout(sock_to)
+    w.sock_opt.timeout = sock_to
+    w.connect("ws://sim.test/", socket=so)
+    S = sched.CURRENT
+    gap = 0.0
+    if peer.startswith("stream"):
+        gap = {"stream-0.05": 0.05, "stream-0.4": 0.4, "stream-pings": 0.1}[peer]
+        frame = R.encode(R.PING, b"k") if peer == "stream-pings" else R.encode(R.TEXT, b"still here")
+
+        def tick():
+            if not conn.client_closed:
+                conn.deliver(frame)
+                S.after(gap, tick)
+        S.after(gap, tick)
+    elif peer == "eof":
+        S.after(0.2, conn.peer_close)
+    elif peer in ("answers", "answers-late"):
+        delay = 0.1 if peer == "answers" else close_to + 5
+
+        def on_bytes(c, data):
+            S.after(delay, lambda: (not c.client_closed) and c.deliver(R.encode(R.CLOSE, b"\x03\xe8")))
+        hs.on_bytes = on_bytes
+    t0 = S.now
+    exc = None
+    try:
+        w.close(timeout=close_to)
+    except BaseException as e:  # noqa
+        if isinstance(e, (KeyboardInterrupt, sched.SimAbort)):
+            raise
+        exc = e
+    dt = S.now - t0
+    res.case(("close-timing", sock_to, close_to, peer), nontrivial=True)
+    res.count("close_durations_checked")
+    case = {"gen": "close-timing", "socket_timeout": sock_to, "close_timeout": close_to, "peer": peer}
+    limit = close_to + gap + 1e-6
+    if exc is not None:
+        res.violation("close-raised", f"close(timeout={close_to}) sock_timeout={sock_to} peer={peer}: {type(exc).__name__}: {exc}", case, step_call="close", got=type(exc).__name__)
+    if dt > limit:
+        res.violation("close-timeout-exceeded", f"close(timeout={close_to}) with socket timeout {sock_to} against peer '{peer}' took {dt:.3f} virtual seconds (limit {limit:.3f})",
+                      case, step_call="close", peer=peer, socket_timeout=repr(sock_to))
+    if not conn.client_closed:
+        res.violation("transport-not-released", f"close(timeout={close_to}) sock_timeout={sock_to} peer={peer}: transport still open", case, step_call="close", via="close", prior="timing")
